@@ -54,7 +54,7 @@ type Projector struct {
 	sawCancel bool
 	Conn      int
 	stream    []byte
-	sslWait   int   // single-byte SSL replies still expected
+	sslWait   int // single-byte SSL replies still expected
 	encSeen   map[string]bool
 	lastCols  []any // oids of the last RowDescription (for decoding rows)
 	lastFmts  []any
@@ -65,13 +65,13 @@ type Projector struct {
 	preMsg    M
 	held      []mem.Ev
 	// extended-protocol bookkeeping for decoding rows (valid when Parse/Bind/Execute are not pipelined)
-	stmtCols  map[string][]any
-	portals   map[string][2][]any
-	pendP     *[2]any
-	pendB     *[3]any
-	Out       []M
-	TLS       bool           // after 'S': the raw stream is TLS records; protocol messages come from the TLS client
-	Plain     map[int][]byte // server Write index -> plaintext the TLS client decrypted from it
+	stmtCols map[string][]any
+	portals  map[string][2][]any
+	pendP    *[2]any
+	pendB    *[3]any
+	Out      []M
+	TLS      bool           // after 'S': the raw stream is TLS records; protocol messages come from the TLS client
+	Plain    map[int][]byte // server Write index -> plaintext the TLS client decrypted from it
 }
 
 // Feed consumes one raw event.
